@@ -124,7 +124,7 @@ type RunResult struct {
 
 var defaultPkgs = []string{".", "./region", "./hrpc", "./filter", "./zk", "./compression", "./compression/snappy", "./pb", "modernc.org/b/v2",
 	"net", "io", "time", "math/bits", "bytes", "encoding/binary", "slices", "errors", "strings", "bufio", "unicode/utf8",
-	"strconv", "sort", "context",
+	"strconv", "sort", "context", "cmp",
 	"google.golang.org/protobuf/encoding/protowire", "google.golang.org/protobuf/proto"}
 
 var initAllow = []string{"github.com/tsuna/gohbase", "github.com/tsuna/gohbase/region", "github.com/tsuna/gohbase/hrpc",
@@ -335,7 +335,7 @@ func runJob(prog *ssa.Program, spec *RunSpec, job *JobSpec) *JobResult {
 				kind, msg, key, stack := ex.runPath(entryFn)
 
 				var f *Finding
-				isFinding := kind == "assertfail" || kind == "panic" || kind == "deadlock" || kind == "unwind"
+				isFinding := kind == "assertfail" || kind == "panic" || kind == "deadlock" || kind == "unwind" || kind == "race"
 				mu.Lock()
 				nOK := jr.Kinds["ok"]
 				mu.Unlock()
